@@ -95,6 +95,7 @@ def handle (prop : String) (line : String) : String :=
       | "pix" => opPix args res
       | "pixframe" => opPixFrame args res
       | "pixh" => opPixH args res
+      | "pixsvg" => opPixSvg args res
       | "pushbits" => opPushBits args res
       | "threads" => opThreads args res
       | "wasmqr" => opWasmQr args res
